@@ -122,11 +122,13 @@ func cliMake(args []string) int {
 		c.Target = *target
 	}
 	if *mode == "badtms" {
+		// every rejected set in turn (by seed), first with the root alone, then with other parts: a set that is no quadtree must be
+		// rejected whatever part of it is requested
+		k := int(*seed % 32)
 		c.Tms = []string{"WorldCRS84Quad", "CDB1GlobalGrid", "GNOSISGlobalGrid", "NoSuchTileMatrixSet", "WGS1984Quad", "UTM31WGS84Quad",
-			"CanadianNAD83_LCC", "LINZAntarticaMapTilegrid"}[rng.Intn(8)]
+			"CanadianNAD83_LCC", "LINZAntarticaMapTilegrid"}[k%8]
 		c.ValidTms = false
-		// also the root alone: a set that is no quadtree must be rejected whatever part of it is requested
-		c.Ids = [][]int{{1, 2}, {0}, {0, 1}, {2}}[rng.Intn(4)]
+		c.Ids = [][]int{{0}, {1, 2}, {0, 1}, {2}}[(k/8)%4]
 	}
 	minZ := c.Ids[0]
 	for _, z := range c.Ids {
